@@ -65,6 +65,8 @@ Record qstate := mkQ {
        i.e. BEFORE combining *)
 }.
 
+Definition is_running (q : qstate) : bool := match q_running q with Some _ => true | None => false end.
+
 Record state := mkSt {
   queues : list qstate;
   sched_on : list N;    (* hooks whose schedule bindings are enabled *)
@@ -273,7 +275,7 @@ Fixpoint advance_all (cfg : config) (qok : N -> bool) (qs : list qstate) (sh : s
   match qs with
   | [] => ([], sh)
   | q :: r =>
-      if match q_running q with Some _ => true | None => false end then
+      if is_running q then
         let (r', sh') := advance_all cfg qok r sh in (q :: r', sh')
       else
         let '(items, run, sh1) := advance_q (fuel_for cfg (q_items q)) cfg qok (q_items q) sh in
